@@ -300,3 +300,247 @@ def batch_lifecycle(req):
     if B().get_priority() != (0, 0) or (lambda bb: (I(bb), I(bb), bb.get_priority())[2])(B()) != (0, 2):
         return fail("default priority is (0, number of items)")
     return None
+
+
+# ---------------------------------------------------------------------------
+# scheduler (C02, C05, C08)
+
+def _fresh_scheduler():
+    import asynq
+    from asynq import scheduler
+    scheduler.reset()
+    return scheduler.get_scheduler()
+
+
+@scenario(["scheduler.TaskScheduler._select_batch_to_flush", "scheduler.TaskScheduler._continue_with_batch",
+           "scheduler.TaskScheduler._schedule_batch", "batching.BatchBase.get_priority"], ["C05"])
+def sched_select_small_scope(req):
+    """_select_batch_to_flush on every set of <=3 batches x items 0..2 x flushed? x priority in {0,1,2}: result eligible, no eligible batch has greater priority, exactly the ineligible dropped."""
+    import itertools
+    from asynq import batching
+    s = _fresh_scheduler()
+
+    class B(batching.BatchBase):
+        def __init__(self, prio):
+            super().__init__()
+            self.prio = prio
+
+        def _try_switch_active_batch(self):
+            pass
+
+        def _flush(self):
+            for it in self.items:
+                it.set_value(None)
+
+        def get_priority(self):
+            return self.prio if self.prio is not None else super().get_priority()
+
+    class I(batching.BatchItemBase):
+        pass
+    specs = list(itertools.product([0, 1, 2], [False, True], [0, 1, 2, None]))
+    for n in (1, 2, 3):
+        for combo in itertools.product(specs, repeat=n):
+            if n == 3 and sum(1 for c in combo if c[1]) > 1:
+                continue      # keep it small
+            bs = []
+            for nitems, flushed, prio in combo:
+                b = B(prio if prio is None else (prio,))
+                for _ in range(nitems):
+                    I(b)
+                bs.append(b)
+            want_elig = [b for b, (nitems, flushed, prio) in zip(bs, combo) if nitems > 0 and not flushed]
+            for b, (nitems, flushed, prio) in zip(bs, combo):
+                if flushed:
+                    b.items and None
+                    b.set_value(None) if False else b.flush()
+            # flushing clears items: rebuild eligibility from the live objects
+            elig = [b for b in bs if len(b.items) > 0 and not b.is_flushed()]
+            s._batches = set(bs)
+            r = s._select_batch_to_flush()
+            desc = [(len(b.items), b.is_flushed(), b.get_priority()) for b in bs]
+            if not elig:
+                if r is not None:
+                    return fail("returned a batch although none is eligible", batches=repr(desc))
+            else:
+                if r is None or r not in elig:
+                    return fail("result is not an eligible (non-empty, unflushed) batch", batches=repr(desc),
+                                result=None if r is None else repr((len(r.items), r.is_flushed())))
+                if any(r.get_priority() < b.get_priority() for b in elig):
+                    return fail("an eligible batch has greater priority than the selected one", batches=repr(desc),
+                                selected=repr(r.get_priority()))
+            if s._batches != set(elig):
+                return fail("the batch set must keep exactly the eligible batches", batches=repr(desc),
+                            kept=len(s._batches), expected=len(elig))
+    return None
+
+
+@scenario(["scheduler.TaskScheduler._continue_with_batch", "scheduler.TaskScheduler._flush_batch",
+           "scheduler.TaskScheduler.wait_for", "batching.BatchBase.flush"], ["C05", "C20"])
+def sched_flush_events(req):
+    """before/after flush events fire exactly once around each scheduler flush (after even when the flush hook fails); each batch flushed once; nothing flushed when nothing is eligible, for every value of DUMP_FLUSH_BATCH."""
+    import asynq, io, contextlib
+    from asynq import batching, debug, scheduler
+    for dump in (False, True):
+        debug.options.DUMP_FLUSH_BATCH = dump
+        try:
+            s = _fresh_scheduler()
+            events = []
+            s.on_before_batch_flush.subscribe(lambda b: events.append(("before", b)))
+            s.on_after_batch_flush.subscribe(lambda b: events.append(("after", b)))
+            flushed = []
+
+            class B(batching.BatchBase):
+                def _try_switch_active_batch(self):
+                    pass
+
+                def _flush(self):
+                    flushed.append(self)
+                    events.append(("flush", self))
+                    for it in self.items:
+                        it.set_value(1)
+
+            class I(batching.BatchItemBase):
+                pass
+            buf = io.StringIO()
+            with contextlib.redirect_stdout(buf):
+                try:
+                    r = s._continue_with_batch()
+                except BaseException as e:
+                    return fail("_continue_with_batch raised with nothing to flush", DUMP_FLUSH_BATCH=dump, exc=repr(e))
+                if r is not None or events:
+                    return fail("flushed something with an empty batch set", DUMP_FLUSH_BATCH=dump)
+                b1, b2 = B(), B()
+                I(b1); I(b2); I(b2)
+                s._schedule_batch(b1); s._schedule_batch(b2)
+                r = s._continue_with_batch()
+            if r is not b2 or flushed != [b2] or events != [("before", b2), ("flush", b2), ("after", b2)]:
+                return fail("one flush of the largest batch with before/after events around it expected",
+                            DUMP_FLUSH_BATCH=dump, events=[e[0] for e in events], picked_largest=r is b2)
+            if b2 in s._batches or b1 not in s._batches:
+                return fail("flushed batch must leave the set, the other must stay", DUMP_FLUSH_BATCH=dump)
+        finally:
+            debug.options.DUMP_FLUSH_BATCH = False
+    # nested synchronous flush of the same batch kind: outer wait_for must not fail when nothing is left
+    from asynq import asynq as asynq_dec
+    for dump in (False, True):
+        debug.options.DUMP_FLUSH_BATCH = dump
+        try:
+            scheduler.reset()
+
+            @asynq_dec()
+            def inner(v):
+                r = yield batching.DebugBatchItem("k", v)
+                return r
+
+            @asynq_dec()
+            def t2():
+                return inner(2)          # synchronous call inside a task: flushes batch 'k'
+
+            @asynq_dec()
+            def root():
+                a, b = yield inner.asynq(1), t2.asynq()
+                return (a, b)
+            buf = io.StringIO()
+            with contextlib.redirect_stdout(buf):
+                try:
+                    got = root()
+                except BaseException as e:
+                    return fail("computation fails only with DUMP_FLUSH_BATCH=%s" % dump, exc=repr(e))
+            if got != (1, 2):
+                return fail("wrong result", got=repr(got), DUMP_FLUSH_BATCH=dump)
+        finally:
+            debug.options.DUMP_FLUSH_BATCH = False
+            scheduler.reset()
+    return None
+
+
+@scenario(["scheduler.TaskScheduler._execute", "scheduler.TaskScheduler._continue_with_task",
+           "scheduler.TaskScheduler._handle_async_task", "scheduler.TaskScheduler.wait_for",
+           "async_task.AsyncTask._continue", "async_task.AsyncTask._compute"], ["C02", "C08"])
+def sched_clean_after_failures(req):
+    """After computations that fail at a task step, a lazily computed Future, a batch item or a context resume/pause, the failure is delivered at the yield (catchable) and the scheduler keeps no task and no active task."""
+    import asynq
+    from asynq import scheduler, futures, batching, contexts
+    from asynq import asynq as A
+
+    def clean(label):
+        s = scheduler.get_scheduler()
+        if len(s._tasks) != 0 or s.active_task is not None:
+            return fail("scheduler not clean after " + label, tasks=len(s._tasks), active=repr(s.active_task))
+        return None
+
+    scheduler.reset()
+
+    @A()
+    def lazy_fail_caught():
+        try:
+            yield futures.Future(lambda: 1 // 0)
+        except ZeroDivisionError:
+            return "caught"
+        return "not raised"
+    try:
+        got = lazy_fail_caught()
+    except ZeroDivisionError as e:
+        r = clean("a failing lazily computed Future")
+        return fail("the error of a yielded lazily-computed Future bypassed the task's try/except and escaped value()",
+                    exc=repr(e), scheduler=(r or {}).get("what"))
+    if got != "caught":
+        return fail("failing Future not delivered at the yield", got=repr(got))
+    r = clean("a failing lazily computed Future (caught)")
+    if r:
+        return r
+
+    class Boom(contexts.AsyncContext):
+        def __init__(self):
+            self.n = 0
+
+        def resume(self):
+            self.n += 1
+            if self.n == 2:
+                raise ValueError("resume failed")
+
+        def pause(self):
+            pass
+
+    @A()
+    def in_ctx():
+        with Boom():
+            yield batching.DebugBatchItem("ctxk", 1)
+        return "done"
+    scheduler.reset()
+    try:
+        got = in_ctx()
+        return fail("context resume failure lost", got=repr(got))
+    except ValueError:
+        pass
+    except BaseException as e:
+        r = clean("a context whose resume() raises")
+        return fail("a context resume() failure must fail the task with that error, not escape as %s" % type(e).__name__,
+                    exc=repr(e), scheduler=(r or {}).get("what"))
+    r = clean("a context whose resume() raises")
+    if r:
+        return r
+
+    @A()
+    def step_fail():
+        yield None
+        raise KeyError("step")
+
+    @A()
+    def parent():
+        try:
+            yield step_fail.asynq()
+        except KeyError:
+            pass
+        if scheduler.get_active_task() is None:
+            raise AssertionError("no active task inside a task")
+        return 7
+    scheduler.reset()
+    if parent() != 7:
+        return fail("child failure not catchable")
+    r = clean("a failing child task")
+    if r:
+        return r
+    if scheduler.get_active_task() is not None:
+        return fail("active task not None after the outermost call returned")
+    return None
